@@ -97,7 +97,9 @@ PROPS = {
                  'of orders 0..10, whole/first/middle/last-part frees, and (in ill-formed traces) frees of unknown pfns, '
                  're-allocations and extra cpus, over 1-4 cores; the built `replay` binary is run on each file and its '
                  'free_frames / number of failed frees compared with the Lean replay loop over the allocator model; for '
-                 'well-formed traces the oracle requires 0 failed frees and free = managed - frames the trace still holds. '
+                 'well-formed traces the oracle requires 0 failed frees and free = managed - frames the trace still holds. Traces of 24 or more events carry time stamps '
+                 'around 100 s, where consecutive events of one CPU share their f32 sort key (the replayer sorts on f32 seconds), and a third of the frees release '
+                 'the block allocated by the immediately preceding event of the same CPU: the merge of the per-CPU pages must be stable. '
                  'distinct_nontrivial = distinct (well-formed, failed, size bucket) signatures.'),
         'assumptions': ['trace parsing (mmap, bit-field unpacking, sort by f32 time) is exercised through the binary but not modelled',
                         'the replay binary is built from /repo by cargo into harness/target-replay'],
@@ -238,14 +240,14 @@ PROPS = {
         'assumptions': [],
     },
     'C11': {
-        'oracles': ['C11'],
+        'oracles': ['C11'], 'bv_decide': True,
         'geoms': {'quick': ['default', 'th1'], 'thorough': ALLG},
         'runs': {'quick': [seq('single', 20, 150)], 'thorough': [seq('single', 400, 300), seq('mixed', 200, 300)]},
         'rule': S_RULE + (' Single-slot flavor: one class with one slot, base-order gets through the slot, frees with and without the slot, exhaust '
                           'phases; oracle: with one slot a get fails only when the shadow state has no free frame (frees counted globally are '
                           'synchronised back into the slot).'),
-        'partial': ('proved: sync_steal takes exactly the counter iff the tree is reserved and holds at least the minimum (boundary: equality '
-                    'suffices, F8); the retry composition in get_local is carried by the correspondence'),
+        'partial': ('proved end to end for every invariant state of a one-class one-slot allocator with more trees than slots and no offline trees; '
+                    'the relation "every state of a history satisfies the invariant" is C02/C06 (constructed allocators)'),
         'assumptions': [],
     },
     'C14': {
